@@ -1366,6 +1366,10 @@ class World:
     def _body(self, src, it, c, cname):
         block_s, block_e = it['block']
         edits = []
+        # conditional compilation inside a body: the verified text is one expansion, the compiled contract may be another
+        plain = re.sub(rb'//[^\n]*', b'', src[block_s:block_e])
+        if re.search(rb'#\s*\[\s*cfg(_attr)?\s*\(|\bcfg!\s*\(', plain):
+            raise Inconclusive(f'unsupported: conditional compilation (#[cfg(..)] / cfg!(..)) inside the body of {cname}')
         # A2 loops
         for n, lc in c.loops.items():
             if n >= len(it['loops']):
